@@ -238,7 +238,7 @@ def nfa_repetition(N: NFA, id_generator: IdentifierGenerator = IdentifierGenerat
     delta = defaultdict(lambda: set([]))
     delta.update(N.delta)
     for q in F:
-        delta[q, N.epsilon] |= {N.q0}
+        delta[q, N.epsilon] = delta[q, N.epsilon] | {N.q0}
     delta[q0, N.epsilon] = {N.q0}
     return NFA(Q, Sigma, delta, q0, F, N.epsilon)
 
@@ -268,7 +268,7 @@ def nfa_concatenation(N1: NFA, N2: NFA) -> NFA:
     delta.update(N1.delta)
     delta.update(N2.delta)
     for q in N1.F:
-        delta[q, N1.epsilon] |= {N2.q0}
+        delta[q, N1.epsilon] = delta[q, N1.epsilon] | {N2.q0}
     return NFA(Q, Sigma, delta, q0, F, N1.epsilon)
 
 
